@@ -108,7 +108,7 @@ class Checker:
         n = self.fail_classes.get(cls, 0)
         self.fail_classes[cls] = n + 1
         if n == 0:
-            path = os.path.join(VERIF, "replays", self.pid, "bounded_%s.json" % "".join(c if c.isalnum() else "_" for c in cls)[:80])
+            path = os.path.join(os.environ.get("VERIF_OUT") or VERIF, "replays", self.pid, "bounded_%s.json" % "".join(c if c.isalnum() else "_" for c in cls)[:80])
             os.makedirs(os.path.dirname(path), exist_ok=True)
             rec = dict(property=self.pid, witness_class=cls, set=set_name, **info)
             rec["how_to_replay"] = "PYTHONPATH=<copy of /repo> /venv/bin/python -c 'from simple_ddl_parser import DDLParser; print(DDLParser(<ddl>, **ctor).run(**run))'"
